@@ -137,13 +137,13 @@ func (t *riffTokens) assemble(c riffGenCase) []byte {
 // headerViews collects what every query of the package says about one file.
 type headerViews struct {
 	decErr, cfgErr, featErr, idecErr, icfgErr, dmxErr, animErr error
-	img                                                      image.Image
-	cfg, icfg                                                image.Config
-	ifmt, icfmt                                              string
-	feat                                                     *webp.Features
-	dmxFeat                                                  mux.Features
-	dmxFrames, dmxLoop                                       int
-	animW, animH, animFrames, animLoop                       int
+	img                                                        image.Image
+	cfg, icfg                                                  image.Config
+	ifmt, icfmt                                                string
+	feat                                                       *webp.Features
+	dmxFeat                                                    mux.Features
+	dmxFrames, dmxLoop                                         int
+	animW, animH, animFrames, animLoop                         int
 }
 
 func queryAll(data []byte) (v headerViews, panicked any) {
